@@ -8,6 +8,19 @@ HERE = os.path.dirname(os.path.dirname(os.path.abspath(__file__)))
 
 # id -> (level, technique, text, note, design_ref)
 CHECKS = {
+    'C13': ('exploration',
+            'callables enumerated by inspection x recipe table of argument shapes, driven by Hypothesis; '
+            'before/after deep fingerprints of every argument; mutate-one-side independence of results; '
+            'exhaustive ordered pairs of read-only queries',
+            'All 56 public callables found by inspect (functions of io, transform, gate, stats, mef, plot; methods '
+            'and properties of FCSData/FCSFile) are exercised through ~400 argument recipes (array / integer / '
+            'float sample, 1-D sample, three scales, scalar vs list arguments, caller-owned bins, populations, '
+            'parameter dicts, xlim, channel lists, mef_values): no argument may change, sample results share no '
+            'event memory and no metadata with their inputs (both directions). All ordered pairs of 43 read-only '
+            'queries on one sample must answer independently of history; views/slices share at most the event '
+            'buffer. New callables without a recipe are reported as UNCOVERED.',
+            'Trusted: public-accessor fingerprints; a callable is exercised only through its recipes.',
+            'DESIGN.md section 4, C13'),
     'C17': ('exploration',
             'Hypothesis generation over the presence/well-formed/ill-formed lattice of optional keywords; '
             'differential vs an independent keyword-to-attribute derivation; never-raises oracle',
